@@ -100,6 +100,22 @@ func checkC20(w *World, r *Report) {
 	am := w.MustFn(w.Godi, "(*collection).AddModules")
 	r.Analysed(am)
 	checkSequentialApply(w, r, am, "R20.2", "R20.1a", false)
+	// every other implementation of AddModules in the package (an adapter that registers into a
+	// scope, a recording collection) follows the same protocol: sibling implementations agree
+	for _, fi := range w.FuncsOf(w.Godi) {
+		if fi == am || fi.Obj.Name() != "AddModules" || fi.Decl.Recv == nil || fi.Decl.Body == nil {
+			continue
+		}
+		sig, ok := fi.Obj.Type().(*types.Signature)
+		if !ok || !sig.Variadic() || sig.Params().Len() != 1 {
+			continue
+		}
+		if sl, isSl := sig.Params().At(0).Type().(*types.Slice); !isSl || !isNamedType(sl.Elem(), modPath, "ModuleOption") {
+			continue
+		}
+		r.Analysed(fi)
+		checkSequentialApply(w, r, fi, "R20.2", "R20.1a", false)
+	}
 
 	// R20.3
 	for _, name := range []string{"AddSingleton", "AddScoped", "AddTransient", "Remove", "RemoveKeyed"} {
